@@ -118,14 +118,32 @@ def findClose : Str → Option Nat
 def escTextChar (c : Char) : Str :=
   if c == '&' then amp else if c == '<' then ['&','l','t',';'] else if c == '>' then ['&','g','t',';'] else [c]
 
-/-- `escapeText`: `&`, `<`, `>` are escaped, except inside `{{ … }}` which is copied as it is. Fuel = length. -/
+def ltRef : Str := ['&','l','t',';']
+/-- what can follow `<` to open a tag, an end tag, a comment or a bogus comment -/
+def isTagStart (c : Char) : Bool := ('a' ≤ c && c ≤ 'z') || ('A' ≤ c && c ≤ 'Z') || c == '/' || c == '!' || c == '?'
+def startsTag : Str → Bool
+  | d :: _ => isTagStart d
+  | [] => false
+
+/-- `writeExpression`: what is written for character `c` followed by `r` inside a `{{ }}` expression -/
+def exprPiece (c : Char) (r : Str) : Str :=
+  if c == '<' && startsTag r then ltRef
+  else if c == '&' && startsRef r then amp
+  else [c]
+
+/-- `writeExpression`: the expression is kept as it is except for a `<` that would open markup and a `&` that may open a reference -/
+def writeExpr : Str → Str
+  | [] => []
+  | c :: r => exprPiece c r ++ writeExpr r
+
+/-- `escapeText`: `&`, `<`, `>` are escaped, except inside `{{ … }}`, which goes through `writeExpr`. Fuel = length. -/
 def escapeText : Nat → Str → Str
   | 0, _ => []
   | _, [] => []
   | f + 1, c :: r =>
     if c == '{' && hasPrefix r ['{'] then
       match findClose (r.drop 1) with
-      | some e => '{' :: '{' :: (r.drop 1).take (e + 2) ++ escapeText f ((r.drop 1).drop (e + 2))
+      | some e => writeExpr ('{' :: '{' :: (r.drop 1).take (e + 2)) ++ escapeText f ((r.drop 1).drop (e + 2))
       | none => escTextChar c ++ escapeText f r
     else escTextChar c ++ escapeText f r
 
